@@ -316,6 +316,11 @@ def check_cost(case: typing.Any, ctx: Ctx) -> Info:
                     at = first_field + (n_fields if lines[0] == "@union" else 1 + failing % max(1, n_fields))
                     lines.insert(min(at, len(lines) - 2), "@assert 2 + 2 == 5")
                     tb.files[top] = "\n".join(lines)
+                if case.get("minor_twin"):
+                    # a second minor version of the outermost type (same text): reading then includes the cross-version rules,
+                    # whose cost must not depend on the capacities either
+                    top_fn = tb.order[-1][1]
+                    tb.files[top_fn.replace(".1.0.dsdl", ".1.%d.dsdl" % (1 + case["minor_twin"] % 3))] = tb.files[top_fn]
                 root = tb.write()
 
                 def read() -> None:
@@ -403,6 +408,7 @@ def parts(ctx: Ctx) -> typing.List[Part]:
             "template": _templates(),
             "slots": st.lists(st.fixed_dictionaries({"cls": st.sampled_from([0, 1, 2, 2, 2]), "r": st.integers(0, 63), "frac": st.integers(0, 15)}), min_size=4, max_size=4),
             "text": st.booleans(),
+            "minor_twin": st.sampled_from([0, 0, 1, 2, 3]),
             "fail_assert": st.one_of(st.none(), st.none(), st.integers(0, 5)),
         }
     )
